@@ -25,8 +25,9 @@ use undermoon::proxy::command::{new_command_pair, Command};
 use undermoon::proxy::executor::ForwardHandler;
 use undermoon::proxy::manager::MetaMap;
 use undermoon::proxy::service::{ClusterNodesVersion, ServerProxyConfig};
-use undermoon::proxy::session::{CmdCtx, CmdCtxHandler};
-use undermoon::proxy::slowlog::SlowRequestLogger;
+use undermoon::proxy::command::CmdReplyReceiver;
+use undermoon::proxy::session::{CmdCtx, CmdCtxHandler, CmdHandler, CmdReplyFuture, Session};
+use undermoon::proxy::slowlog::{SlowRequestLogger, TaskEvent};
 
 pub type Cmd = Vec<Vec<u8>>;
 
@@ -541,6 +542,18 @@ pub struct ProxyNode {
     pub authenticated: AtomicBool,
     pub sessions: AtomicUsize,
     meta_map: undermoon::proxy::manager::SharedMetaMap<SimConnFactory>,
+    pub config: Arc<ServerProxyConfig>,
+    pub slow_logger: Arc<SlowRequestLogger>,
+}
+
+/// What `Session` owns as its `CmdCtxHandler` (the production service hands it the shared
+/// `ForwardHandler`; here the node keeps ownership).
+struct NodeRef(Arc<ProxyNode>);
+
+impl CmdCtxHandler for NodeRef {
+    fn handle_cmd_ctx(&self, cmd_ctx: CmdCtx, result_receiver: CmdReplyReceiver, authenticated: &AtomicBool) -> CmdReplyFuture {
+        self.0.handler.handle_cmd_ctx(cmd_ctx, result_receiver, authenticated)
+    }
 }
 
 impl Drop for ProxyNode {
@@ -579,8 +592,10 @@ fn proxy_config(address: &str, o: &ProxyOpts) -> ServerProxyConfig {
         announce_address: address.to_string(),
         announce_host: host,
         slowlog_len: NonZeroUsize::new(16).unwrap(),
+        // every request is sampled and recorded by the slow log (both settings are reachable by
+        // any client through CONFIG SET), so that the slow-log path sees every input of every check
         slowlog_log_slower_than: AtomicI64::new(-1),
-        slowlog_sample_rate: AtomicU64::new(1000),
+        slowlog_sample_rate: AtomicU64::new(1),
         thread_number: NonZeroUsize::new(1).unwrap(),
         backend_conn_num: NonZeroUsize::new(o.backend_conn_num.max(1)).unwrap(),
         active_redirection: o.active_redirection,
@@ -640,8 +655,9 @@ impl World {
         let meta_map = Arc::new(arc_swap::ArcSwap::new(Arc::new(MetaMap::empty())));
         let reg = Arc::new(TrackedFutureRegistry::default());
         let (stopped, _rx) = mpsc::unbounded();
-        let handler = ForwardHandler::new(config.clone(), cf, Arc::new(SlowRequestLogger::new(config)), meta_map.clone(), conn, reg, stopped);
-        let node = Arc::new(ProxyNode { address: address.to_string(), handler, authenticated: AtomicBool::new(false), sessions: AtomicUsize::new(0), meta_map });
+        let slow_logger = Arc::new(SlowRequestLogger::new(config.clone()));
+        let handler = ForwardHandler::new(config.clone(), cf, slow_logger.clone(), meta_map.clone(), conn, reg, stopped);
+        let node = Arc::new(ProxyNode { address: address.to_string(), handler, authenticated: AtomicBool::new(false), sessions: AtomicUsize::new(0), meta_map, config, slow_logger });
         self.0.st.lock().unwrap().proxies.insert(address.to_string(), node.clone());
         node
     }
@@ -897,7 +913,34 @@ impl Default for World {
 }
 
 impl ProxyNode {
-    pub async fn handle(&self, r: RespVec) -> RespVec {
+    /// One request through the production per-request path of a client session: the packet is
+    /// what the session decoder produces from the request bytes (an *indexed* packet, like every
+    /// request that arrives over TCP), the real `Session` creates the `CmdCtx` (slow log sampling
+    /// included), the real `ForwardHandler` handles it, and the reply is post-processed exactly like
+    /// `handle_session` does (`WaitDone` event, `handle_slowlog`).  `handle_session` itself (socket
+    /// framing, reply FIFO) is the subject of C08.
+    pub async fn handle_packet(self: &Arc<Self>, packet: Box<RespPacket>) -> Box<RespPacket> {
+        let sid = self.sessions.fetch_add(1, Ordering::SeqCst);
+        let session = Session::new(sid, NodeRef(self.clone()), self.slow_logger.clone(), self.config.clone());
+        let fut = session.handle_cmd(Command::new(packet));
+        match fut.await {
+            Ok(task_reply) => {
+                let (request, packet, mut slowlog) = (*task_reply).into_inner();
+                slowlog.log_event(TaskEvent::WaitDone);
+                session.handle_slowlog(request, slowlog);
+                packet
+            }
+            Err(e) => Box::new(RespPacket::from_resp_vec(Resp::Error(format!("Err cmd error {:?}", e).into_bytes()))),
+        }
+    }
+
+    pub async fn handle(self: &Arc<Self>, r: RespVec) -> RespVec {
+        self.handle_packet(to_session_packet(r)).await.into_resp_vec()
+    }
+
+    /// The old entry (a `RespPacket::Data` request straight into the handler, no session, no slow
+    /// log) - kept for differential runs.
+    pub async fn handle_data_packet(&self, r: RespVec) -> RespVec {
         let cmd = Command::new(Box::new(RespPacket::Data(r)));
         let (s, rx) = new_command_pair(&cmd);
         let sid = self.sessions.fetch_add(1, Ordering::SeqCst);
@@ -910,6 +953,22 @@ impl ProxyNode {
             }
             Err(e) => Resp::Error(format!("Err cmd error {:?}", e).into_bytes()),
         }
+    }
+}
+
+/// Request bytes -> the packet the session decoder yields for them.
+pub fn to_session_packet(r: RespVec) -> Box<RespPacket> {
+    use tokio_util::codec::Decoder;
+    let mut bytes: Vec<u8> = vec![];
+    if undermoon::protocol::encode_resp(&mut bytes, &r).is_err() {
+        return Box::new(RespPacket::Data(r));
+    }
+    let (encoder, decoder) = undermoon::protocol::new_simple_packet_codec::<Box<RespPacket>, Box<RespPacket>>();
+    let mut codec = undermoon::protocol::RespCodec::new(encoder, decoder);
+    let mut buf = bytes::BytesMut::from(&bytes[..]);
+    match codec.decode(&mut buf) {
+        Ok(Some(p)) if buf.is_empty() => p,
+        _ => Box::new(RespPacket::Data(r)),
     }
 }
 
